@@ -96,6 +96,9 @@ func c02SSO(r *core.Run, idx int, rng *rand.Rand) {
 		c.Req.ACSURL = c.SPD.ACS[rng.Intn(len(c.SPD.ACS))].Location + ".evil-" + randHex(rng, 3) + ".example"
 	}
 	c.HasRel, c.Relay = true, evilURL(rng)
+	if rng.Intn(5) == 0 {
+		c.Relay += "?" + strings.Repeat(plainString(rng, 40)+"&", 150+rng.Intn(200)) // 6-14 kB: very long redirect URLs
+	}
 	// outcome mix: accepted, or failing at some step after the consumer service is known, or before
 	fail := []string{"", "", "destination_wrong", "conditions_expired", "id_empty", "version_empty", "issuer_unregistered", "unsigned_but_required", "persist_fails", "not_wellformed"}[rng.Intn(10)]
 	var mod func(e *env.Env)
@@ -208,6 +211,9 @@ func c02Callback(r *core.Run, idx int, rng *rand.Rand) {
 	sc.Opts.HostPath = ""
 	sc.S.ACS = hostileEndpoint(rng, strings.ToLower(canary)+".sp.example", rng.Intn(3), false)
 	sc.S.RelayState = evilURL(rng)
+	if rng.Intn(5) == 0 {
+		sc.S.RelayState += "?" + strings.Repeat(plainString(rng, 40)+"&", 150+rng.Intn(200))
+	}
 	state := idx % 3 // done, pending, done+late failure
 	if state == 1 {
 		sc.Done = false
